@@ -171,6 +171,7 @@ func verifSortedKeys(m map[string]*verifContainer) []string {
 //	0: 1 socket, 2 NUMA nodes x 2 cores x 2 threads (8 CPUs): pools socket + 2 NUMA
 //	1: 2 sockets x 2 cores x 2 threads, 1 NUMA node each (8 CPUs): pools root + 2 sockets
 //	2: 2 sockets x 2 NUMA nodes x 1 core x 2 threads (8 CPUs): pools root + 2 sockets + 4 NUMA
+//	3: machine 0 plus a CPU-less PMEM node whose closest DRAM node is NUMA node 0
 func verifMachine(k int) (system.System, []*libmem.Node, int) {
 	var cpus []system.VerifCPU
 	var nodes []system.VerifNode
@@ -191,6 +192,15 @@ func verifMachine(k int) (system.System, []*libmem.Node, int) {
 		nodes = []system.VerifNode{
 			{ID: 0, Pkg: 0, MemType: system.MemoryTypeDRAM, Normal: true, Distance: []int{10, 21}},
 			{ID: 1, Pkg: 1, MemType: system.MemoryTypeDRAM, Normal: true, Distance: []int{21, 10}},
+		}
+	case 3: // as 0, plus a CPU-less PMEM node closest to NUMA node 0
+		for id := 0; id < 8; id++ {
+			cpus = append(cpus, system.VerifCPU{ID: id, Node: id / 4, Core: id / 2, Cluster: id / 2, Kind: P, EPP: system.EPPUnknown, CacheGroup: -1})
+		}
+		nodes = []system.VerifNode{
+			{ID: 0, MemType: system.MemoryTypeDRAM, Normal: true, Distance: []int{10, 21, 17}},
+			{ID: 1, MemType: system.MemoryTypeDRAM, Normal: true, Distance: []int{21, 10, 28}},
+			{ID: 2, MemType: system.MemoryTypePMEM, Normal: true, Distance: []int{17, 28, 10}},
 		}
 	default:
 		for id := 0; id < 8; id++ {
@@ -216,7 +226,7 @@ func verifMachine(k int) (system.System, []*libmem.Node, int) {
 	sys := system.VerifNewSystem(cpus, nodes)
 	var mnodes []*libmem.Node
 	for _, n := range nodes {
-		mn, err := libmem.NewNode(n.ID, libmem.TypeDRAM, int64(64)<<30, true, sys.Node(n.ID).CPUSet(), n.Distance)
+		mn, err := libmem.NewNode(n.ID, libmem.TypeForSysfs(n.MemType), int64(64)<<30, true, sys.Node(n.ID).CPUSet(), n.Distance)
 		if err != nil {
 			panic(err)
 		}
